@@ -269,8 +269,18 @@ def explore(engine, prop, tier, seed, batch=BATCH_DEFAULT, isolate=None, budget_
         have = sorted(agg['digests'])
         step = max(1, len(have) // selftest)
         pick = have[::step][:selftest]
+        extra = []
+        ctxf = getattr(engine, 'selftest_context', None)
+        if ctxf is not None:
+            # facts of the preparation the fresh interpreter may take over instead of recomputing them for every file
+            # (which files were usable, index-space sizes); everything a run depends on is still recomputed there
+            os.makedirs(env.OUT, exist_ok=True)
+            cpath = os.path.join(env.OUT, 'selftest_%s.json' % prop)
+            with open(cpath, 'w') as f:
+                json.dump(ctxf(), f)
+            extra = ['--context', cpath]
         rc, so, se = _fresh_interpreter([prop, '--tier', tier, '--seed', str(seed), '--digest-runs',
-                                         ','.join(map(str, pick))], hashseed=977, jobs=3)
+                                         ','.join(map(str, pick))] + extra, hashseed=977, jobs=3)
         try:
             other = json.loads(so.strip().splitlines()[-1])
         except Exception:
@@ -331,10 +341,14 @@ def explore(engine, prop, tier, seed, batch=BATCH_DEFAULT, isolate=None, budget_
     return exit_code
 
 
-def digest_runs(engine, prop, tier, seed, indices):
+def digest_runs(engine, prop, tier, seed, indices, context=None):
     global _ENGINE
     _ENGINE = engine
-    engine.prepare(prop, tier, seed, only=indices)
+    if context:
+        with open(context) as f:
+            engine.prepare(prop, tier, seed, only=indices, context=json.load(f))
+    else:
+        engine.prepare(prop, tier, seed, only=indices)
     out = {}
     tasks = [Batch(engine.ENGINE, prop, tier, seed, [i], None) for i in indices]
     for ti, (st, res) in forkpool.pmap(_run_batch, tasks, timeout=300):
